@@ -3,9 +3,9 @@
 Theorems: coq/C05/Properties_C05.v (calculate_flat_index accepts exactly the in-range tuples and is a
 bijection onto the flat buffer; every access site accepts iff in range for indices that fit an int;
 rejected accesses change nothing; the array machine incl. pointers refines a shadow array keyed by
-index tuples for every operation sequence, with and without `checked`; three laws refuted on the
-faithful model = known findings; the former int-truncation and offset-wrap defects are fixed in /repo
-(ff8053c, 2bd3a28) and the model mirrors the repaired code).
+index tuples for every operation sequence, with and without `checked`; one law refuted on the faithful
+model = known finding (array_get/array_set); the defects this check found at the array sites are fixed in
+/repo (ff8053c, 2bd3a28, f8c96b6, 4d44dbb, 3ecd7bc) and the model mirrors the repaired code).
 Tie: (1) the extracted model (bin/c05_model) against the repository's own Variable::calculate_flat_index
 linked into harness/cpp/c05_flatidx.cpp, exhaustively on all shapes of 1-3 dimensions with extents 1..5 x
 all index tuples in [-2, extent+2] plus indices around +-2^31 / +-2^32 / +-2^63 (through Variable::index_to_int); (2) generated Cb programs through
@@ -29,24 +29,21 @@ META = {
                  "array/pointer machine to a tuple-keyed shadow array over all operation sequences) + extracted-model differential run "
                  "against Variable::index_to_int/calculate_flat_index (leaf, exhaustive) and against main (generated programs)",
     "text": "Machine-checked theorems about a site-by-site Gallina model of the interpreter's array index checks (mirroring /repo at the "
-            "fixes ff8053c and 2bd3a28): calculate_flat_index accepts exactly the tuples with every index inside its dimension and is a "
+            "fixes ff8053c, 2bd3a28, f8c96b6, 4d44dbb, 3ecd7bc): calculate_flat_index accepts exactly the tuples with every index inside its dimension and is a "
             "bijection between those tuples and the flat buffer (row-major); every access site (local/global/parameter array, struct "
             "member array, read and write) accepts iff in range for every integer index (an index that does not fit an int is rejected "
             "by index_to_int); a rejected access leaves the state unchanged; an accepted write changes the cell of exactly one tuple; "
             "the pointer made by &a[i] never leaves the array under p+-k, p++/p--, for every offset; for every sequence of reads, writes "
             "and pointer operations the machine produces the results of a shadow array keyed by index tuples, without `checked` (run "
-            "ends at the first rejection) and with it (Err exactly on the rejected accesses, run continues). Laws the pinned code still "
-            "breaks are proved refuted on the model with a witness and replayed on the real binary as known findings (rank-3 struct "
-            "member reads, p[k] into N-D arrays, unchecked array_get/array_set). The model is tied to the code on every run: exhaustive "
+            "ends at the first rejection) and with it (Err exactly on the rejected accesses, run continues). The one law the code still breaks is proved "
+            "refuted on the model with a witness and replayed on the real binary as a known finding (array_get/array_set know no extent). The model is tied to the code on every run: exhaustive "
             "small scopes against the repository's own index_to_int + calculate_flat_index and against main through every access path, "
             "indices around +-2^31/2^32/2^63 and pointer offsets around 2^59/2^61 at every site, plus random access sequences against "
             "a shadow array.",
     "note": "Trusted: Coq kernel (vm_compute only for witnesses and examples), no axioms (Print Assumptions: closed; coqchk in the thorough "
             "tier); extraction via ExtrOcamlBasic+ExtrOcamlString, Z kept inductive; the model is hand-written and tied by differential "
             "testing, not by a proof about the C++. Hypotheses left in the theorems: declared extents fit an int (dims_fit), size < 2^31, "
-            "the buffer does not wrap the address space, p[k] only on rank-1 arrays, struct members of rank <= 2. Not modelled: the "
-            "flattened-struct synchronisation (writes to cells of flat index < first extent of a 2-D struct member are lost: known "
-            "finding, avoided), pointers into struct member arrays and into parameter arrays (aliasing, C07), element types other than "
+            "the buffer does not wrap the address space. Not modelled: the flattened-struct synchronisation, pointers into struct member arrays and into parameter arrays (aliasing, C07), element types other than "
             "int, string/char indexing, dynamic arrays, int64 overflow of element_index + k.",
 }
 
@@ -190,16 +187,10 @@ def trips_known(c):
     member = loc in ("mlocal", "mglobal")
     for o in c["ops"]:
         t = o[0]
-        if member and len(dims) >= 3:
-            return "C05-struct-member-rank3-rejected"
-        if member and len(dims) == 2 and t == "W" and in_range(dims, o[1]) and row_major(dims, o[1]) < dims[0]:
-            return "C05-struct-member-2d-write-lost"
         if member and t not in ("R", "W"):
             return "C05-pointer-into-struct-member-incoherent"
         if loc == "param" and t not in ("R", "W"):
             return "C05-pointer-into-parameter-array-incoherent"
-        if t in ("PR", "PW") and len(dims) != 1:
-            return "C05-pointer-index-into-multidim-rejected"
     if loc == "param" and len(dims) >= 2:
         wrote = False
         for o in c["ops"]:
@@ -469,15 +460,13 @@ def gen_ops(rng, c, nops):
         p_bad = (1.0 if (end_bad and last) else 0.0) if mode == "plain" else 0.3
         kinds = ["R", "R", "W", "W"]
         if ptr_ok:
-            kinds += ["A"] if ptr is None else ["A", "P+", "P-", "P++", "P--", "D", "DW", "DA"] + (["PR", "PW"] if r == 1 else [])
+            kinds += ["A"] if ptr is None else ["A", "P+", "P-", "P++", "P--", "D", "DW", "DA", "PR", "PW"]
         t = rng.choice(kinds)
         # element values of either sign (a negative element read as the left operand of +/- crashed before fix 7c216d9)
         v = rng.choice([rng.randint(-999, 999), rng.randint(-2 ** 31, 2 ** 31 - 1)]) if rng.random() < 0.3 else rng.randint(1, 99)
         if t in ("R", "W", "A"):
             bad_here = p_bad if t != "A" or mode == "plain" else 0.0
             idx = rand_tuple(rng, dims, bad_here)
-            if t == "W" and member and r == 2 and in_range(dims, idx) and row_major(dims, idx) < dims[0]:
-                t = "R"                                                     # avoid C05-struct-member-2d-write-lost
             if mode == "checked" and t == "W" and not (r == 1 and not member) and not in_range(dims, idx):
                 t = "R"                                                     # no checked form for this write: would end the run
             o = (t, idx) if t != "W" else (t, idx, v)
@@ -520,15 +509,13 @@ def gen_ops(rng, c, nops):
 def rand_case(rng, tier):
     r = rng.choice([1, 1, 2, 2, 3])
     dims = [rng.randint(1, 5) for _ in range(r)]
-    locs = ["local", "global", "param"] + (["mlocal", "mglobal"] if r <= 2 else [])
+    locs = ["local", "global", "param", "mlocal", "mglobal"]
     loc = rng.choice(locs)
     mode = rng.choice(["plain", "plain", "checked"])
     if mode == "checked" and loc in ("local", "mlocal") and rng.random() < 0.5:
         loc = "param" if loc == "local" else "mglobal"          # the other half: try/checked in a declaration (fix 982c54e)
     n = size(dims)
     init = [rng.randint(-99, 999) or 1 for _ in range(n)]
-    if loc in ("mlocal", "mglobal") and r == 2:
-        init = [0 if k < dims[0] else v for k, v in enumerate(init)]
     c = {"mode": mode, "loc": loc, "dims": dims, "init": init, "use_literal": rng.random() < 0.5, "ctx": rng.randrange(3)}
     c["ops"] = gen_ops(rng, c, rng.randint(2, 14 if tier == "quick" else 24))
     if loc == "param" and r >= 2:
@@ -542,8 +529,6 @@ def rand_case(rng, tier):
 def single_case(loc, dims, t, rw, init=None, ctx=0, value=7):
     n = size(dims)
     init = init if init is not None else [k + 1 for k in range(n)]
-    if loc in ("mlocal", "mglobal") and len(dims) == 2:
-        init = [0 if k < dims[0] else v for k, v in enumerate(init)]
     ops = [("R", list(t))] if rw == "R" else [("W", list(t), value), ("R", list(t))]
     if rw == "W" and loc == "param" and len(dims) >= 2:
         ops = ops[:1]                                   # read-back happens in the caller's dump
@@ -575,7 +560,7 @@ def matrix_program(loc, dims):
         call = "cr(%s)" % ", ".join("i%d" % k for k in range(r))
     body = ["  %s a;" % T] if loc == "param" else []
     for k in range(n):
-        v = 0 if (member and r == 2 and k < dims[0]) else 1000 + k * 7 % 997
+        v = 1000 + k * 7 % 997
         vals[tuple(unflat(dims, k))] = v
         if v:
             body.append("  %s%s = %d;" % (A, sub(unflat(dims, k)), v))
@@ -615,7 +600,7 @@ def pointer_cases(tier):
                 cases.append(dict(base, ops=[st, ("P++",), ("D",)]))
                 cases.append(dict(base, ops=[st, ("P--",), ("D",)]))
                 cases.append(dict(base, ops=[st, ("DW", 77), ("D",), ("R", unflat(dims, e))]))
-                if len(dims) == 1:
+                if True:
                     ks = list(range(-n - 2, n + 3))
                     ops = [st] + [("PR", k) for k in ks] + [("DA", k) for k in ks] + \
                           [("PW", k, 500 + k) for k in ks] + [("PR", k) for k in ks] + [("D",)]
@@ -750,7 +735,7 @@ def run(rep):
     mshapes = list(shapes()) if tier == "thorough" else [d for d in shapes() if len(d) < 3 or max(d) <= 3 or sum(d) % 3 == seed % 3]
     jobs = []
     for dims in mshapes:
-        for loc in ("global", "param") + (("mglobal",) if len(dims) <= 2 else ()):
+        for loc in ("global", "param", "mglobal"):
             jobs.append((loc, dims))
 
     def run_matrix(job):
@@ -802,7 +787,7 @@ def run(rep):
     locs_named = ["local", "global", "param"]
     if tier == "thorough":
         for dims in shapes():
-            locs = locs_named + (["mlocal", "mglobal"] if len(dims) <= 2 else [])
+            locs = locs_named + ["mlocal", "mglobal"]
             for k, t in enumerate(tuples_around(dims)):
                 if in_range(dims, t):
                     continue
@@ -819,7 +804,7 @@ def run(rep):
         for k in range(1400):
             rng = rng_for(seed, "c05-single", k)
             dims = rng.choice(allsh)
-            locs = locs_named + (["mlocal", "mglobal"] if len(dims) <= 2 else [])
+            locs = locs_named + ["mlocal", "mglobal"]
             t = rand_tuple(rng, dims, 0.85)
             singles.append(single_case(rng.choice(locs), dims, t, rng.choice(["R", "W"]), ctx=rng.randrange(3),
                                        value=rng.randint(1, 99)))
@@ -935,7 +920,7 @@ def boundary_cases(seed, tier):
     big = [T32 + 1, -T32 + 1, T32, -T32, T31, -T31, T31 + 1, -T31 - 1, 2 * T32 + 1, T32 - 1, T31 - 1, 2 ** 63 - 1, -(2 ** 63 - 1)]
     k = 0
     for dims in ([4], [5], [2, 3], [3, 2], [2, 2, 2]):
-        for loc in ["local", "global", "param"] + (["mlocal", "mglobal"] if len(dims) <= 2 else []):
+        for loc in ["local", "global", "param", "mlocal", "mglobal"]:
             for pos in range(len(dims)):
                 for b in big if tier == "thorough" else big[:8]:
                     for rw in ("R", "W"):
@@ -952,9 +937,9 @@ def boundary_cases(seed, tier):
         for loc in ("local", "global"):
             for b in big[:6]:
                 cases.append(dict(single_case(loc, dims, [0] * len(dims), "R"), ops=[("A", [b] + [0] * (len(dims) - 1))]))
-                if len(dims) == 1:
-                    cases.append(dict(single_case(loc, dims, [0], "R"), ops=[("A", [1]), ("PR", b)]))
-                    cases.append(dict(single_case(loc, dims, [0], "R"), ops=[("A", [1]), ("PW", b, 55), ("R", [2])]))
+                st0 = [0] * (len(dims) - 1) + [1]
+                cases.append(dict(single_case(loc, dims, st0, "R"), ops=[("A", st0), ("PR", b)]))
+                cases.append(dict(single_case(loc, dims, st0, "R"), ops=[("A", st0), ("PW", b, 55), ("R", [0] * (len(dims) - 1) + [2])]))
             for kk in (T61 + 1, T61, 2 * T61 + 2, -T61 + 1, T61 - 1, 2 ** 60, -(2 ** 60), 2 ** 59 - 1, 2 ** 59, -(2 ** 59), 2 ** 63 - 1):
                 cases.append(dict(single_case(loc, dims, [0] * len(dims), "R"), ops=[("A", [0] * len(dims)), ("P+", kk), ("D",)]))
                 cases.append(dict(single_case(loc, dims, [0] * len(dims), "R"),
